@@ -15,6 +15,7 @@ RULE = (
     "all-but-one, per-batch-element different, per-task different}, policy order (all orders of mask/fill [+ignore on clean data]), "
     "fast_pred_var, likelihood in {gauss, fixed}, seed); distinct = cell without seed; non-trivial iff >=1 observation is missing and >=1 observed"
     "; pass 6: the policies together with linear means, fixed+learned noise, linear / KISS-GP / RFF kernels and iterative solves ('mask' only)"
+    "; pass 7: objective on another target tensor than the stored one; policy orders starting with 'ignore'; the deprecated GaussianLikelihoodWithMissingObs (terms and gradients of the observed entries alone, under any policy setting)"
 )
 REQUIRED = ["posterior_mean", "posterior_covar", "mll_unnormalised", "expected_log_prob", "log_marginal", "no_nan_leaves", "order_independent"]
 ASSUMPTIONS = [
@@ -49,6 +50,9 @@ def cases(tier, seed):
         for pat, pol, b in itertools.product(PATTERNS, ["mask", "fill"], [[], [2]]):
             yield {"kind": "lik_terms", "pattern": pat, "policy": pol, "batch": b, "n": 6, "fillvalue_target": True, "seed": rnd.randrange(10**6)}
             yield {"kind": "lik_terms", "pattern": pat, "policy": pol, "batch": b, "n": 4, "t": 2, "seed": rnd.randrange(10**6)}
+        # the (deprecated) likelihood class that handles NaN targets itself, whatever the policy setting
+        for pat, pol, b in itertools.product(PATTERNS, ["ignore", "fill"], [[], [2]]):
+            yield {"kind": "lik_terms", "pattern": pat, "policy": pol, "legacy_class": True, "batch": b, "n": 6, "fillvalue_target": True, "seed": rnd.randrange(10**6)}
 
 
 _ST = {}
@@ -400,7 +404,14 @@ def _lik_terms(case, ctx, g):
     else:
         mean = util.randn(g, *b, N)
         d = MVN(mean, C)
-        lik = gpytorch.likelihoods.GaussianLikelihood()
+        if case.get("legacy_class"):
+            import warnings
+
+            with warnings.catch_warnings():
+                warnings.simplefilter("ignore")
+                lik = gpytorch.likelihoods.GaussianLikelihoodWithMissingObs()
+        else:
+            lik = gpytorch.likelihoods.GaussianLikelihood()
         util.randomize(lik, g, 0.5)
         r = lik.noise.detach().expand(*b, N)
         v = torch.diagonal(C, dim1=-2, dim2=-1)
@@ -430,7 +441,20 @@ def _lik_terms(case, ctx, g):
     dims = tuple(range(len(b), elp_full.dim()))
     ctx.close("expected_log_prob", elp.reshape(*b, -1).sum(-1), (elp_full * keep).sum(dims), "direct", cls=f"elp:{pol}:{'mt' if t else 'single'}", policy=pol)
     ctx.close("log_marginal", lm.reshape(*b, -1).sum(-1), (lm_full * keep).sum(dims), "direct", cls=f"lm:{pol}:{'mt' if t else 'single'}", policy=pol)
-    if pol == "fill" and not t and elp.shape == elp_full.shape:
+    if case.get("legacy_class"):
+        ctx.close("log_marginal", lm, lm_full * keep, "direct", cls="lm:legacy_class:elementwise", policy=pol)
+        # gradients w.r.t. the noise and the latent mean: those of the observed entries alone, finite
+        mean_g = mean.clone().requires_grad_(True)
+        with S.observation_nan_policy(pol):
+            tot = lik.expected_log_prob(yn, MVN(mean_g, C)).sum() + lik.log_marginal(yn, MVN(mean_g, C)).sum()
+        gn, gm = torch.autograd.grad(tot, [lik.raw_noise, mean_g])
+        mean_r = mean.clone().requires_grad_(True)
+        rr = lik.noise.expand(*b, N)
+        ref_tot = ((-0.5 * (((y - mean_r) ** 2 + v) / rr + torch.log(rr) + math.log(2 * math.pi))) * keep).sum() + ((-0.5 * ((y - mean_r) ** 2 / (v + rr) + torch.log(v + rr) + math.log(2 * math.pi))) * keep).sum()
+        rn, rm = torch.autograd.grad(ref_tot, [lik.raw_noise, mean_r])
+        ctx.expect("no_nan_leaves", bool(torch.isfinite(gn).all() and torch.isfinite(gm).all()), "NaN in the gradients of the likelihood terms", where="lik_terms:legacy_class")
+        ctx.close("expected_log_prob", torch.cat([gn.reshape(-1), gm.reshape(-1)]), torch.cat([rn.reshape(-1), rm.reshape(-1)]), "direct", cls="grad:legacy_class", policy=pol)
+    if (pol == "fill" or case.get("legacy_class")) and not t and elp.shape == elp_full.shape:
         ctx.close("expected_log_prob_elementwise", elp, elp_full * keep, "direct", cls="elp:fill:elementwise")
     ctx.expect("no_nan_leaves", bool(torch.isfinite(elp).all() and torch.isfinite(lm).all()), "NaN in likelihood terms", where="lik_terms")
     ctx.cell({k: v_ for k, v_ in case.items() if k != "seed"}, nontrivial=bool(miss.any()))
